@@ -335,6 +335,31 @@ def op_get_opcode_module_raw(vinfo, variant):
     return run
 
 
+def op_decode_all_opcodes(vt, variant):
+    """decode a code string that contains every opcode number once, with the table of (version, variant): name, operand
+    class and has-operand of each - what a memo keyed without the variant would mix up"""
+    def run():
+        from xdis.bytecode import get_instructions_bytes
+        from xdis.op_imports import get_opcode_module
+
+        opc = get_opcode_module(vt, variant) if variant else get_opcode_module(vt + (0, "final"))
+        code = bytearray()
+        for op in range(256):
+            if opc.version_tuple >= (3, 6):
+                code += bytearray([op, 0])
+            else:
+                code += bytearray([op]) + (bytearray([0, 0]) if op >= opc.HAVE_ARGUMENT else bytearray())
+        out = []
+        try:
+            for i in get_instructions_bytes(bytes(code), opc):
+                out.append([i.opcode, i.opname, i.optype, bool(i.has_arg), i.inst_size])
+        except Exception as e:
+            out.append(["raises", type(e).__name__])
+        return digest(out)
+
+    return run
+
+
 def _sample_fn(a, b=2):
     x = [i for i in range(a) if i != b]
     try:
@@ -511,6 +536,10 @@ def build_ops(plan, workdir):
         ops.append(("make_std_api:%s" % tag, op_std_api(vt3)))
         ops.append(("make_std_api:%spypy" % tag, op_std_api(vt3, "pypy")))
     ops.append(("get_opcode_module:3.12.0rc", op_get_opcode_module_raw((3, 12, 0, "candidate", 1), None)))
+    # every opcode number through the decoder, with both table variants of the versions that have two
+    for vt in (((2, 7), (3, 7), (3, 9), (3, 10)) if quick else ((2, 6), (2, 7), (3, 2), (3, 3), (3, 5), (3, 6), (3, 7), (3, 8), (3, 9), (3, 10))):
+        ops.append(("decode-all-opcodes:%d.%d" % vt, op_decode_all_opcodes(vt, None)))
+        ops.append(("decode-all-opcodes:%d.%dpypy" % vt, op_decode_all_opcodes(vt, "pypy")))
     for vt in ((2, 7), (3, 4), (3, 7), (3, 11), sys.version_info[:2], (3, 13)):
         ops.append(("make_std_api:%d.%d" % tuple(vt), op_std_api(tuple(vt))))
     for w in ("tuple", "bigint", "text"):
